@@ -76,6 +76,8 @@ ShortVector(s, r) ==
       body(n) == EncHeader(InnerBase, 46, 4 + n) \o << 0, 0 >> \o U16(4 + n) \o D(n, 90 + n)
       bare(nx) == EncHeader(InnerBase, nx, 0)
       frag(k) == EncHeader(InnerBase, 46, k) \o Take(<< 0, 0, 0, 40 >>, k)
+      onlyunk(chain, first, mode) == UnprotectCaps("C04", "R", ~r, EncHeader(InnerBase, first, Len(chain)) \o chain, mode,
+                                                   [panic |-> FALSE, capdiff |-> FALSE, err |-> FALSE, msg |-> Norm([InnerBase EXCEPT !.payloads = << >>])])
       st(w, mode, mustErr) == UnprotectCaps("C04", "R", ~r, w, mode,
                                             IF mustErr THEN [panic |-> FALSE, capdiff |-> FALSE, err |-> TRUE] ELSE [panic |-> FALSE, capdiff |-> FALSE]) IN
   Vector("sk_short", << SaNew("R", s, keys) >>
@@ -83,7 +85,10 @@ ShortVector(s, r) ==
     \o [i \in 1..49 |-> st(body(i - 1), IF i % 2 = 0 THEN "pre" ELSE "nil", TRUE)]
     \o << st(bare(46), "nil", TRUE), st(bare(46), "pre", TRUE), st(bare(33), "nil", TRUE), st(bare(1), "pre", TRUE), st(bare(255), "nil", TRUE),
           st(bare(0), "nil", FALSE), st(bare(0), "pre", FALSE),
-          st(frag(1), "nil", TRUE), st(frag(2), "pre", TRUE), st(frag(3), "nil", TRUE) >>)
+          st(frag(1), "nil", TRUE), st(frag(2), "pre", TRUE), st(frag(3), "nil", TRUE),
+          \* nothing but unsupported non-critical payloads in the clear: every one is skipped, the message has no payloads
+          onlyunk(<< 0, 0, 0, 4 >>, 50, "nil"), onlyunk(<< 0, 0, 0, 4 >>, 50, "pre"),
+          onlyunk(<< 200, 0, 0, 7, 1, 2, 3, 0, 0, 0, 4 >>, 49, "pre"), onlyunk(<< 200, 0, 0, 7, 1, 2, 3, 0, 0, 0, 4 >>, 49, "nil") >>)
 
 \* ---- authentic datagrams with unsupported payloads in the cleartext chain IN FRONT of the Encrypted payload (C13 through unprotection)
 OuterPre(j) == CASE j = 1 -> << [t |-> 49, crit |-> 0, body |-> << 1, 2, 3 >>] >>
